@@ -38,6 +38,8 @@ CHECKS = {
             "Held on the observed files only; the listing oracle is the self-consistency the statement defines (rows = non-CACHE instruction stream, '>>' <=> is_jump_target, line column <=> starts_line for bytecode >= 2.3).", "7/C12"),
     "C07": ("exploration", "multi-host consensus monitoring: canonical tree / instruction stream / masked listing digests of the same file on six hosts and across loader paths must be identical",
             "Held on the observed files (corpus + fresh files of every host version) on hosts 3.8-3.13; hosts older than 3.8 cannot import this branch in the sandbox.", "7/C07"),
+    "C11": ("fault_enumeration", "fault enumeration (prefixes, byte mutations, inserts/deletes, foreign magics, adversarial marshal streams) through load_module under process observers: outcome class, sys.monitoring step budget, tracemalloc peak, audit hooks, scratch-dir listing, CPU-time scaling monitor",
+            "Every enumerated corruption of the seed files ends in a 7-tuple or ImportError within linear step/memory budgets with no exec/compile/import/write event; quick enumerates ~55k cases, thorough all prefixes and all byte positions of every seed <= 16 KB.", "7/C11"),
 }
 
 PENDING = {}
